@@ -487,6 +487,10 @@ def run_property(mod, tier, seed, only_source=None):
             if k in seen:
                 continue
             seen.add(k)
+            if len(violations) >= 8:
+                # enough confirmed reproductions to report; confirming hundreds of slow failures one by one (a stage that now
+                # runs into its timeout on every input) would keep a broken tree from being reported at all
+                break
             src = [s for s in mod.sources(ctx) if s.name == f["source"]][0]
             ok = 0
             for _ in range(3):
